@@ -56,6 +56,24 @@ def two_roll_cases(chk, rng):
                 return chk.fail('two-usable', f"{name}: usable cross-section bounds {b} do not span the usable width {g.usable_width} symmetrically", data)
 
 
+def asymmetric_spline_case(chk):
+    """a groove that is not mirror symmetric: half-turn images and mirror images differ"""
+    from pyroll.core import RollPass, Roll, SplineGroove
+    g = SplineGroove([(0, 0), (5e-3, 8e-3), (15e-3, 12e-3), (30e-3, 10e-3), (40e-3, 4e-3), (45e-3, 0)], classifiers=['oval'])
+    for gap in (1e-3, 4e-3):
+        chk.cov['evaluations'] += 1
+        rp = RollPass(label="p", roll=Roll(groove=g, nominal_radius=0.2), gap=gap)
+        up, lo = [np.array(c.coords) for c in rp.contour_lines.geoms]
+        data = {'groove': 'asymmetric SplineGroove', 'gap': gap, 'rolls': 2}
+        if not same_curve(rot(up, 180), lo, 1e-12 * 45e-3):
+            return chk.fail('two-halfturn', "asymmetric spline groove: lower contour is not the upper one turned by 180 degrees", data)
+        ucs = rp.usable_cross_section
+        A = np.array(ucs.exterior.coords)
+        from shapely.geometry import Polygon
+        if ucs.symmetric_difference(Polygon(rot(A, 180))).area > 1e-9 * ucs.area:
+            return chk.fail('two-usable-halfturn', "asymmetric spline groove: usable cross-section is not invariant under a half turn", data)
+
+
 def seg_dist_parallel(P, Q):
     """distance between two (nearly parallel) segments given by 2 points each: distance of Q's midpoint to line P"""
     d = P[1] - P[0]
@@ -145,6 +163,7 @@ def run(chk):
     rng = random.Random(chk.seed + 900)
     for rep in range(1 if not chk.thorough else 6):
         two_roll_cases(chk, rng)
+        asymmetric_spline_case(chk)
         three_roll_cases(chk, rng)
     chk.cov['distinct_nontrivial'] += chk.cov['evaluations']
     chk.sample({'groove': GC.CATALOGUE[0][0], 'kwargs': GC.CATALOGUE[0][1], 'gap': 0.001, 'rolls': 2})
